@@ -354,6 +354,8 @@ def recognise_ctor(c, init, info):
     # audit/abstract.py: Abstract(cls=None) re-classes itself; AbstractInteger/Boolean(input=None, value=None)
     if params == ["cls"] and src == ["self.value = None", "if cls is not None: ;     self.__class__ = cls"]:
         return "CtorReclass"
+    if params == ["input", "value"] and src == ["if isinstance(input, int): ;     input, value = (None, input)", "super().__init__(input, value)"]:
+        return "CtorInputValue"
     if params == ["input", "value"] and src[:3] == ["super().__init__()", "self.input = input",
                                                      "self.value = self.input._value() if input is not None else value"] \
             and len(src) == 4 and src[3].startswith("if input is not None:"):
@@ -1000,6 +1002,39 @@ def gen_audit(repo, outdir, notes):
     cfd, err = try_fundef(cfn["typeerror_demote"])
     tfuns.append(f"({cstr('typeerror_demote')}, {cfd})")
     text += "Definition static_funs : list (string * fundef) :=\n  " + clist(["\n   " + x for x in tfuns]) + ".\n"
+    # the static typing rule of cond.if_else(a, b): per condition class, the expression giving the result type
+    ife = None
+    for n in ast.walk(types_fn):
+        if isinstance(n, ast.If) and ast.unparse(n.test) == "a.func.attr == 'if_else'":
+            ife = n
+    if ife is None:
+        raise ExtractError(st.rel, types_fn.lineno, "if_else branch of types() not found")
+    inner = ife.body[0]
+    if not (isinstance(inner, ast.If) and ast.unparse(inner.test) == "len(a.args) == 2"):
+        fail(ife, "unrecognised if_else block")
+    chain = [x for x in inner.body if isinstance(x, ast.If)]
+    if len(chain) != 1:
+        fail(inner, "unrecognised if_else block")
+    rules, rule_exprs, cur = [], [], chain[0]
+    while True:
+        mm = __import__("re").fullmatch(r"t_v == (\w+)", ast.unparse(cur.test))
+        if not mm:
+            fail(cur, "unrecognised condition test in the if_else rule")
+        br = cur.body[0]
+        if not (isinstance(br, ast.If) and len(br.body) == 1 and isinstance(br.body[0], ast.Assign)):
+            fail(cur, "unrecognised branch in the if_else rule")
+        rules.append(f"({cstr(mm.group(1))}, {cstr(ast.unparse(br.test))}, {cstr(ast.unparse(br.body[0].value))})")
+        try:
+            rule_exprs.append(f"({cstr(mm.group(1))}, {expr(br.test)}, {expr(br.body[0].value)})")
+        except ExtractError as e:
+            notes.append(str(e))
+            rule_exprs.append(f"({cstr(mm.group(1))}, (EOpaque \"untranslated\"), (EOpaque \"untranslated\"))")
+        if len(cur.orelse) == 1 and isinstance(cur.orelse[0], ast.If):
+            cur = cur.orelse[0]
+        else:
+            break
+    text += "Definition ifelse_static : list (string * string * string) :=\n  " + clist(rules) + ".\n"
+    text += "Definition ifelse_static_exprs : list (string * expr * expr) :=\n  " + clist(rule_exprs) + ".\n"
     write_if_changed(os.path.join(outdir, "GenAudit.v"), text)
 
 
